@@ -174,6 +174,7 @@ type Exec struct {
 	initDone   bool
 	known      []knownRegion
 	quiesceReq bool
+	advancing  map[*G]*advState
 	natTimers  map[*Value]*Timer
 	sleeping   map[*G]*bool
 	bgCtx      *ctxObj
